@@ -117,7 +117,10 @@ func runPose(script []pact, ch vrt.Chooser, explore3 bool) (out explore.Outcome)
 				e := r.ents[act.E]
 				a.SendMsg(&hagallpb.EntityDeleteRequest{Type: hagallpb.MsgType_MSG_TYPE_ENTITY_DELETE_REQUEST, Timestamp: w.NextTS(), RequestId: a.NextReqID(), EntityId: e})
 				r.deleted[e] = true
-			case "cjoin":
+			case "cjoin", "tickjoin":
+				if act.K == "tickjoin" {
+					s.Advance(w.Cfg.FrameDuration)
+				}
 				m, _ := joinReq(w, x.C["c"], sid)
 				x.C["c"].SendMsg(m)
 				r.cJoined = true
@@ -162,6 +165,7 @@ func runPose(script []pact, ch vrt.Chooser, explore3 bool) (out explore.Outcome)
 		}
 		for _, n := range observers {
 			last := map[uint32]float32{}
+			lastRelay := map[uint32]float32{}
 			gone := map[uint32]bool{}
 			state := map[uint32]float32{}
 			for _, m := range x.C[n].All() {
@@ -183,10 +187,38 @@ func runPose(script []pact, ch vrt.Chooser, explore3 bool) (out explore.Outcome)
 					if gone[v.EntityId] {
 						fail("order", "pose-after-delete", "%s received a pose relay for entity %d after its deletion had been relayed", n, v.EntityId)
 					}
-					if prev, ok := last[v.EntityId]; ok && px <= prev && px != 0.5 {
-						fail("order", "pose-reordered-or-repeated", "%s received px=%v for entity %d after px=%v", n, px, v.EntityId, prev)
+					// among relays: strictly increasing; relative to the state handed on
+					// joining (not a relay): never older
+					if prev, ok := lastRelay[v.EntityId]; ok && px <= prev {
+						fail("order", "pose-reordered-or-repeated", "%s received the relay px=%v for entity %d after the relay px=%v", n, px, v.EntityId, prev)
+					} else if prev, ok := last[v.EntityId]; ok && px < prev {
+						fail("order", "pose-older-than-state", "%s received the relay px=%v for entity %d after having been handed px=%v", n, px, v.EntityId, prev)
 					}
+					lastRelay[v.EntityId] = px
 					last[v.EntityId] = px
+				}
+			}
+			if n == "c" && r.ownerIn {
+				// the joiner: what it holds after 3 further frames must be the latest pose.
+				// stateFirst: the value it would hold had its SESSION_STATE been applied
+				// before the relays enqueued ahead of it (known join-snapshot race).
+				for _, e := range r.ents {
+					if r.deleted[e] {
+						continue
+					}
+					if last[e] != r.lastEff[e] {
+						sf := state[e]
+						for _, m := range x.C[n].All() {
+							if v, ok := m.Msg.(*hagallpb.EntityUpdatePoseBroadcast); ok && v.EntityId == e {
+								sf = v.Pose.GetPx()
+							}
+						}
+						class := "joiner-never-told"
+						if sf == r.lastEff[e] {
+							class = "joiner-state-overtaken-by-relay"
+						}
+						fail("latest", "latest-pose-not-at-joiner:"+class, "the owner's most recent pose of entity %d is px=%v; the participant that joined midway holds px=%v", e, r.lastEff[e], last[e])
+					}
 				}
 			}
 			if n == "b" {
@@ -248,6 +280,8 @@ var poseScripts = map[string][]pact{
 	"update-vs-delete":        {{"pose", 0}, {"edel", 0}, {"tick", 0}},
 	"delete-then-update":      {{"pose", 0}, {"tick", 0}, {"edel", 0}, {"pose", 0}, {"tick", 0}},
 	"joiner-midway":           {{"pose", 0}, {"cjoin", 0}, {"tick", 0}, {"pose", 0}, {"tick", 0}},
+	"joiner-vs-flush":         {{"pose", 0}, {"tick", 0}, {"cjoin", 0}},
+	"joiner-with-flush":       {{"pose", 0}, {"tickjoin", 0}},
 	"switch-with-pending":     {{"pose", 0}, {"switch", 0}, {"tick", 0}},
 	"close-with-pending":      {{"pose", 0}, {"close", 0}, {"tick", 0}},
 	"dropped-updates":         {{"foreign", 0}, {"unknown", 0}, {"pose", 0}, {"tick", 0}},
@@ -324,7 +358,7 @@ func init() {
 		if tier == "thorough" {
 			d = 8
 		}
-		jobs = append(jobs, s1job("entities", d, []string{"C11"}, 8, budget))
+		jobs = append(jobs, s1job("entities", d, []string{"C11"}, 6, budget), s1job("pose-churn", d, []string{"C11"}, 6, budget))
 		return jobs
 	}, check.PropInfo{
 		Rule:        "S3: scripts of the owner's pose updates (sequence number in px) over two entities mixed with deletes, a joiner, a session switch, a close, updates that must be dropped (foreign / unknown entity, no pose) and frame ticks; the environment actions of a script are taken at quiescence by default and any of them may be taken early (1 deviation each), while the owner's receiver, main loop and sender and the session's frame worker are interleaved at lock/channel granularity (preemption-bounded): tick placement relative to arrival and to consumption is therefore enumerated. Oracle: per observer and entity px strictly increasing; after 3 further frames the last effective px is what b holds and what a newcomer is handed; no pose relay after the delete relay; dropped updates cause no relay and move nothing. Plus the S1 family `entities` (sequential coalescing semantics against the reference model).",
